@@ -1,6 +1,7 @@
 package props
 
 import (
+	"chgosim/sched"
 	"context"
 	"errors"
 	"fmt"
@@ -168,11 +169,33 @@ func runC13(t *testing.T, c *choice.Stream, r *Result, opt RunOpt) {
 		e.OnHang = func(info string) {
 			r.Violate("no-return", "no-return:"+kind, "%s never returned (response %s)\n%s", what, kind, info)
 		}
+		// The caller may give up just as a handshake fails for a reason of its own:
+		// whoever cleans up must not leave the other's part undone.
+		lateCancel := !success && c.Bool("late.cancel", 1, 3)
+		lateCancelStep := c.Draw("late.cancel.step", 500)
+		var lateCancelFn context.CancelFunc
+		if lateCancel {
+			done := false
+			e.Sim.AddEnv(&sched.EnvFunc{N: "caller-cancel", E: func() bool {
+				// only once the server's answer is on its way: the handshake fails by itself
+				return !done && lateCancelFn != nil && srv.ScriptPos() >= len(srv.Script) && e.Sim.Step >= lateCancelStep
+			}, R: func() {
+				done = true
+				lateCancelFn()
+				r.Fire("caller_cancels_around_failure")
+			}})
+		}
 		return func() {
 			ctx := context.Background()
 			if ctxDeadline > 0 {
 				var cancel context.CancelFunc
 				ctx, cancel = context.WithTimeout(ctx, ctxDeadline)
+				defer cancel()
+			}
+			if lateCancel {
+				var cancel context.CancelFunc
+				ctx, cancel = context.WithCancel(ctx)
+				lateCancelFn = cancel
 				defer cancel()
 			}
 			opts := cf.Options()
@@ -196,7 +219,8 @@ func runC13(t *testing.T, c *choice.Stream, r *Result, opt RunOpt) {
 					r.Violate("bad-handshake-accepted", "accepted:"+kind, "%s returned client=%v err=%v although the server answered with %s", what, cl != nil, err, kind)
 					return
 				}
-				if kind == "exception" {
+				if kind == "exception" && !(lateCancel && errors.Is(err, context.Canceled)) {
+					// (a caller that cancelled before the exception was read gets its own error)
 					ex, ok := ch.AsException(err)
 					if !ok || int32(ex.Code) != chain[0].Code || ex.Message != chain[0].Message || len(ex.Next) != len(chain)-1 {
 						r.Violate("exception-lost", "exception-lost", "handshake answered by an exception chain %+v but the error is %v", chain, err)
